@@ -371,6 +371,20 @@ def check_C18(ctx):
         if nm in repo_tables and repo_tables[nm] != got:
             ctx.violation("tables-not-regenerated", {"table": nm, "note": "char_ranges.rs differs from the generator's output",
                                                      "first_generated": got[:3], "first_in_file": repo_tables[nm][:3]})
+    # what the generator *prints* (its main): the text of crates/lexgen/src/char_ranges.rs up to layout
+    r = run(["cargo", "run", "--offline", "-q", "-p", "char_range_gen"], cwd=REPO,
+            env={"RUSTFLAGS": "--cfg %s" % GUARD, "CARGO_TARGET_DIR": TARGET}, timeout=1800)
+    norm = lambda t: re.sub(r",([\])])", r"\1", re.sub(r"\s+", "", t))
+    committed = open(os.path.join(REPO, "crates", "lexgen", "src", "char_ranges.rs")).read()
+    n += 1
+    # cargo's own messages go to the same pipe only on failure (-q)
+    if r.returncode != 0 or norm(r.stdout) != norm(committed):
+        a, b = norm(r.stdout), norm(committed)
+        k = next((i for i in range(min(len(a), len(b))) if a[i] != b[i]), min(len(a), len(b)))
+        ctx.violation("printed-tables", {"note": "the text printed by `cargo run -p char_range_gen` is not char_ranges.rs (compared "
+                                                 "without white space and trailing commas)",
+                                         "exit_code": r.returncode, "printed_around_first_difference": a[max(0, k - 80):k + 80],
+                                         "file_around_first_difference": b[max(0, k - 80):k + 80]})
     ctx.coverage["evaluations"] += n
     ctx.coverage["distinct_nontrivial"] += len(set(impl[:len(bsets)]))
     ctx.coverage["rule"] = ("predicates given by boundary lists over {0,1,2,0x7f,0x80, around the surrogate gap, char::MAX}: all "
